@@ -45,6 +45,7 @@ def hasTy : GoVal → GoTy → Bool
   | .bigInt _, .bigInt => true
   | .bigFloat _, .bigFloat => true
   | .cval _, .cval => true
+  | .cvalNil, .cval => true          -- cty.NilVal, the zero value of the struct type cty.Value
   | _, _ => false
 def hasTyL : List GoVal → GoTy → Bool
   | [], _ => true
@@ -65,11 +66,39 @@ def allTagged : List String → Bool
   | [] => true
   | t :: ts => t != "" && allTagged ts
 
+/-! `isZero g T`: `g` is the zero value of the Go type `T` (what a field that the
+bridge does not carry — one without a `cty` tag — must hold to come back unchanged). -/
+mutual
+def isZero : GoVal → GoTy → Bool
+  | .int v, .int _ _ => v == 0
+  | .flt x, .float _ => decide (x = .fin false 0 0 Num.fprec)
+  | .str s, .str => s == ""
+  | .bool b, .bool => !b
+  | .nilSlice, .slice _ => true
+  | .arr vs, .array n e => vs.length == n && isZeroL vs e
+  | .nilMap, .map _ => true
+  | .nilPtr, .ptr _ => true
+  | .struct tags vs, .struct tags' tys => tags == tags' && isZeroZ vs tys
+  | .bigInt v, .bigInt => v == 0
+  | .bigFloat x, .bigFloat => decide (x = .fin false 0 0 0)
+  | .cvalNil, .cval => true
+  | _, _ => false
+def isZeroL : List GoVal → GoTy → Bool
+  | [], _ => true
+  | v :: vs, e => isZero v e && isZeroL vs e
+def isZeroZ : List GoVal → List GoTy → Bool
+  | [], [] => true
+  | v :: vs, t :: ts => isZero v t && isZeroZ vs ts
+  | _, _ => false
+end
+
 /-! `rtSide norm g T`: the side conditions of the round-trip theorem.
 * every string and map key is fixed by the normaliser (`norm s = s`, i.e. is NFC);
 * a nil pointer occurs only where the pointee type is `plainPointee`;
-* every struct field carries a cty tag, tags are distinct and NFC;
-* no `cty.Value` below a slice, array or map (a cty list/map has one element type). -/
+* the `cty` tags of a struct are distinct and NFC; a field without a tag is not
+  carried by the bridge and holds its zero value;
+* no `cty.Value` below a slice, array or map (a cty list/map has one element type),
+  and no `cty.NilVal` (the invalid zero `cty.Value`) in a bridged position. -/
 mutual
 def rtSide (norm : String → String) : GoVal → GoTy → Bool
   | .str s, _ => norm s == s
@@ -79,15 +108,73 @@ def rtSide (norm : String → String) : GoVal → GoTy → Bool
   | .nilPtr, .ptr e => plainPointee e
   | .ptr v, .ptr e => rtSide norm v e
   | .struct tags vs, .struct _ tys =>
-    allTagged tags && tagsDistinct tags && tags.map norm == tags && rtSideZ norm vs tys
+    tagsDistinct tags && (taggedNames tags).map norm == taggedNames tags && rtSideZ norm tags vs tys
+  | .cvalNil, _ => false
   | _, _ => true
 def rtSideL (norm : String → String) : List GoVal → GoTy → Bool
   | [], _ => true
   | v :: vs, e => rtSide norm v e && rtSideL norm vs e
-def rtSideZ (norm : String → String) : List GoVal → List GoTy → Bool
-  | v :: vs, t :: ts => rtSide norm v t && rtSideZ norm vs ts
-  | _, _ => true
+def rtSideZ (norm : String → String) : List String → List GoVal → List GoTy → Bool
+  | t :: tags, v :: vs, T :: tys =>
+    (if t = "" then isZero v T else rtSide norm v T) && rtSideZ norm tags vs tys
+  | _, _, _ => true
 end
+
+/-! ### numbers: the representation invariant of the wire form and "is the integer k" -/
+
+/-- the normal form every `Num` has that the codec delivers and `Num.mk` builds:
+odd mantissa, zero as mantissa 0 with exponent 0 (a representation invariant,
+not a restriction on the number: see `normal_mk`) -/
+def normalNum : Num → Bool
+  | .fin _ m e _ => if m = 0 then e == 0 else m % 2 == 1
+  | .inf _ => true
+
+/-- `x` is finite and its exact value `±m·2^e` is the integer `k`
+(cross-multiplied, so that no fraction is needed) -/
+def IsTheInt (x : Num) (k : Int) : Prop :=
+  match x with
+  | .fin n m e _ => (if n then -(m : Int) else (m : Int)) * 2 ^ e.toNat = k * 2 ^ (-e).toNat
+  | .inf _ => False
+
+/-- 2^1024 − 2^970 = (2^54 − 1)·2^970: the midpoint between the largest float64 and 2^1024 -/
+def thr64 : Num := .fin false (2 ^ 54 - 1) 970 64
+
+/-! ### shapes (for "shape mismatches are refused") -/
+
+/-- does a known, non-null value of cty type `ty` have a shape the (pointer-stripped)
+Go target type accepts at all?  (`cty.Value` accepts everything; big.Int/big.Float
+are structs without tagged fields and accept objects, by design of the struct rule) -/
+def shapeOK : Ty → GoTy → Bool
+  | _, .cval => true
+  | .bool, .bool => true
+  | .string, .str => true
+  | .number, .int _ _ => true
+  | .number, .float _ => true
+  | .number, .bigInt => true
+  | .number, .bigFloat => true
+  | .list _, .slice _ => true
+  | .list _, .array _ _ => true
+  | .set _, .slice _ => true
+  | .set _, .array _ _ => true
+  | .map _, .map _ => true
+  | .object _ _ _, .struct _ _ => true
+  | .object _ _ _, .bigInt => true
+  | .object _ _ _, .bigFloat => true
+  | .tuple _, .struct _ _ => true
+  | _, _ => false
+
+/-- the payload is a known, non-null, unmarked one of the kind its type dictates
+(what every `cty.Value` satisfies, C06) -/
+def kindOK : Ty → Payload → Bool
+  | .bool, .b _ => true
+  | .number, .n _ => true
+  | .string, .s _ => true
+  | .list _, .seq _ => true
+  | .tuple _, .seq _ => true
+  | .map _, .smap _ _ => true
+  | .object names _ _, .smap ks _ => ks == names
+  | .set _, .sset _ _ => true
+  | _, _ => false
 
 /-- no marker anywhere in the value -/
 def unmarkedDeep (v : Value) : Bool := !v.containsMarked
